@@ -346,9 +346,10 @@ def _eq_oracle(args, run=None):
     name = args["dst"]
     dtype, nodata = args["dtype"], args["nodata"]
     rng = np.random.default_rng(5)
-    shape = ((2,) if args["time_axis"] else ()) + tuple(src_g.shape)
+    nt = 3 if args["time_axis"] else 0  # three time steps, chunked (2, 1): non-uniform chunks along the leading axis
+    shape = ((nt,) if nt else ()) + tuple(src_g.shape)
     pix = rng.integers(1, 200, size=shape).astype(dtype)
-    xx = wrap_xr(pix, src_g, nodata=nodata, **({"time": ["2020-01-01", "2020-01-02"]} if args["time_axis"] else {}))
+    xx = wrap_xr(pix, src_g, nodata=nodata, **({"time": ["2020-01-01", "2020-01-02", "2020-01-03"]} if nt else {}))
     if name == "other_crs":
         dst_g = xx.odc.output_geobox("EPSG:3857")
     else:
@@ -381,6 +382,8 @@ def _eq_oracle(args, run=None):
     ref = xx.odc.reproject(dst_g, resampling="nearest")
     cy, cx = args["src_chunks"]
     ch = {src_g.dimensions[0]: cy, src_g.dimensions[1]: cx}
+    if args["time_axis"]:
+        ch["time"] = 2
     kw = {} if args["dst_chunks"] is None else dict(chunks=args["dst_chunks"])
     lazy = xx.chunk(ch).odc.reproject(dst_g, resampling="nearest", **kw)
     if lazy.shape != ref.shape or lazy.dtype != ref.dtype:
@@ -400,6 +403,11 @@ def _eq_oracle(args, run=None):
                 idx = kk[1:]
                 y, x = idx[ydim : ydim + 2]
                 task = graph[kk]
+                blk_shape = tuple(c_[i_] for c_, i_ in zip(arr.chunks, idx))
+                if isinstance(task, tuple) and task and task[0] is np.full:
+                    if tuple(task[1]) != blk_shape:
+                        fails.append(f"post:a constant fill block has the shape of ITS destination chunk (chunk {idx}: {tuple(task[1])} vs {blk_shape})")
+                        return fails
                 deps = sorted(t for t in _flatten(task) if isinstance(t, tuple) and len(t) > 1 and t[0] == src_name)
                 want = sorted((src_name, *idx[:ydim], sy, sx) for sy, sx in d2s.get((y, x), []))
                 if deps != want:
@@ -612,4 +620,118 @@ lemma(
     body=_lemma_ba_extract_flow,
     unstub=[f"{BL}:BlockAssembler.extract", "odc.geo.roi:roi_intersect3", "odc.geo.roi:slice_intersect3", "odc.geo.roi:_norm_slice_or_error", "odc.geo.roi:roi_shape", "odc.geo.roi:roi_normalise", "odc.geo.roi:_norm_slice"],
     note="data flow of the real extract() over ghost blocks and a recording numpy: symbolic Y/X window on a 2 x 1 mosaic with a non-spatial axis of length 3 (leading or trailing), window = Y/X only, one plane, or a sub-range; the per-axis intersection arithmetic is roi_intersect3's contract",
+)
+
+
+# ---- _dask_rio_reproject: the graph that is built (dask's Array / HighLevelGraph constructors are recording ghosts) -------------------
+
+
+def _lemma_graph_build(ydim, uniform_time):
+    m = repo(DK)
+    import numpy as np
+
+    log = {}
+    t_chunks = ((2, 2) if uniform_time else (2, 1)) if ydim == 1 else None
+    y_chunks, x_chunks = (3, 4), (5, 2)
+    src_chunks = ((t_chunks,) if ydim else ()) + (y_chunks, x_chunks)
+
+    class Src:
+        name = "src-arr"
+        dtype = np.dtype("int16")
+        chunks = src_chunks
+        shape = tuple(sum(c) for c in src_chunks)
+        chunksize = tuple(max(c) for c in src_chunks)
+
+        def __dask_keys__(self):
+            def rec(prefix, dims):
+                if not dims:
+                    return ("src-arr", *prefix)
+                return [rec(prefix + (i,), dims[1:]) for i in range(len(dims[0]))]
+
+            return rec((), src_chunks)
+
+    d2s = {(0, 0): [(0, 0), (1, 0)], (1, 1): [(1, 1)]}  # destination chunk -> source chunks; the other chunks need nothing
+
+    class GBT:
+        def __init__(self, gbox, chunks):
+            self.gbox, self.chunks_in = gbox, chunks
+            self.chunks = ((4, 2), (3, 3)) if gbox == "DST" else (y_chunks, x_chunks)
+
+        def grid_intersect(self, other):
+            log["grid_intersect"] = (self.gbox, other.gbox)
+            return d2s
+
+        def chunk_shape(self, idx):
+            class S:
+                yx = (self.chunks[0][idx[0]], self.chunks[1][idx[1]])
+
+            return S()
+
+    class DstBox:
+        class shape:  # noqa: N801
+            yx = (6, 6)
+
+        def __eq__(self, o):
+            return o == "DST"
+
+        __hash__ = None
+
+    saved = (m.GeoboxTiles, m.HighLevelGraph, m.da, m.GeoBox, m.uuid4, m.resampling_s2rio)
+    try:
+        m.GeoboxTiles = lambda gbox, chunks: GBT("DST" if isinstance(gbox, DstBox) else "SRC", chunks)
+        m.GeoBox = object  # isinstance(s_gbox, GeoBox) is an assert only
+
+        class HLG:
+            @staticmethod
+            def from_collections(name, dsk, dependencies=()):
+                log["hlg"] = (name, dict(dsk), dependencies)
+                return ("graph", name)
+
+        class DA:
+            @staticmethod
+            def Array(dsk, name, chunks=None, dtype=None, shape=None):
+                log["array"] = dict(dsk=dsk, name=name, chunks=chunks, dtype=dtype, shape=shape)
+                return ("dask-array", name)
+
+            Array = Array  # noqa
+
+        m.HighLevelGraph, m.da = HLG, DA
+
+        class U:
+            hex = "TOKEN"
+
+        m.uuid4 = lambda: U()
+        m.resampling_s2rio = lambda s: ("rio", s)
+        src = Src()
+        out = m._dask_rio_reproject(src, object(), DstBox(), "nearest", src_nodata=-1, dst_nodata=None, ydim=ydim, chunks=(4, 3))
+    finally:
+        m.GeoboxTiles, m.HighLevelGraph, m.da, m.GeoBox, m.uuid4, m.resampling_s2rio = saved
+    name, dsk, deps = log["hlg"]
+    claim(log["grid_intersect"] == ("DST", "SRC"), "the dependency map is the destination tiling intersected with the source tiling")
+    claim(name == "reproject-TOKEN" and deps == (src,), "a fresh graph name per call; the graph depends on the source array")
+    dst_chunks = ((t_chunks,) if ydim else ()) + ((4, 2), (3, 3))
+    claim(log["array"]["chunks"] == dst_chunks and log["array"]["shape"] == ((sum(t_chunks),) if ydim else ()) + (6, 6) and log["array"]["dtype"] == src.dtype, "output array: the source's non-spatial chunking around the destination tiling, destination shape, source dtype")
+    want_keys = {(name, *idx) for idx in np.ndindex(*[len(c) for c in dst_chunks])}
+    claim(set(dsk) == want_keys, "exactly one task per destination chunk")
+    fill = np.int16(-1)
+    for key, task in dsk.items():
+        idx = key[1:]
+        y, x = idx[ydim : ydim + 2]
+        blk = tuple(c[i] for c, i in zip(dst_chunks, idx))
+        if (y, x) in d2s:
+            claim(task[1] == (y, x) and getattr(task[0], "func", None) is m._do_chunked_reproject, f"chunk {idx}: a reprojection task for its own tile")
+            claim(list(task[2:]) == [("src-arr", *idx[:ydim], sy, sx) for sy, sx in d2s[(y, x)]], f"chunk {idx}: fed with exactly the source blocks of the dependency map, of the same non-spatial index, in order")
+            kw = task[0].keywords
+            claim(kw["src_nodata"] == -1 and kw["dst_nodata"] is None and kw["axis"] == ydim and kw["resampling"] == ("rio", "nearest"), f"chunk {idx}: nodata, axis and resampling passed on")
+        else:
+            claim(getattr(task[0], "__vc_native__", task[0]) is np.full and tuple(task[1]) == blk and task[2] == fill and type(task[2]) is np.int16 and task[3] == src.dtype, f"chunk {idx}: no source reaches it: a constant block of ITS OWN shape holding the fill value")
+
+
+lemma(
+    "dask.graph_build_flow",
+    ["C13"],
+    inputs=dict(ydim=OneOf(0, 1), uniform_time=Bool()),
+    body=_lemma_graph_build,
+    unstub=[f"{DK}:_dask_rio_reproject", f"{DK}:resolve_fill_value"],
+    note="the real _dask_rio_reproject with dask's Array / HighLevelGraph, GeoboxTiles and uuid4 recorded: keys, dependencies, per-chunk tasks and constant fill blocks (non-uniform chunks along a leading axis included)",
 )
